@@ -1,5 +1,5 @@
 Require Import ZArith List. Require Extraction. Require Import ExtrOcamlBasic.
-Require Import IW.Gen.Facts IW.UT.Hmap IW.UT.Ulist IW.UT.Sarr IW.UT.Rb IW.UT.Xstr IW.UT.Avl IW.UT.Pool IW.UT.Plist IW.UT.Pforest IW.UT.AvlWalk IW.UT.PoolStr.
+Require Import IW.Gen.Facts IW.UT.Hmap IW.UT.Ulist IW.UT.Sarr IW.UT.Rb IW.UT.Xstr IW.UT.Avl IW.UT.Pool IW.UT.Plist IW.UT.Pforest IW.UT.AvlWalk IW.UT.PoolStr IW.UT.PoolBig.
 Require Import IW.UT.Hmap_af.
 Extraction "m.ml" Z.add Z.mul Z.sub Z.div_eucl Z.compare Z.of_nat Z.to_nat Z.opp Z.eqb Z.ltb
   hash_u32 hash_u64 hash_str hash_ptr CONT_hmap_u32_ikp CONT_hmap_u64_ikp CONT_hmap_str_ikp
@@ -11,7 +11,7 @@ Extraction "m.ml" Z.add Z.mul Z.sub Z.div_eucl Z.compare Z.of_nat Z.to_nat Z.opp
   x_create x_cat x_unshift x_shift x_pop x_insert x_clear x_clone x_wrap x_data x_term x_set_size x_poke x_printf_alloc x_new_printf AUNIT
   xu_new xu_set xu_get xu_detach xu_destroy
   av_insert av_remove av_lookup av_bounds av_inorder av_walk_fwd av_walk_bwd av_walk_post av_size
-  p_create p_create_empty p_alloc p_strndup p_cstrarr split_string p_split
+  p_create p_create_empty p_alloc p_strndup p_cstrarr split_string p_split p_alloc_z p_calloc_z p_strndup_z
   f_empty f_create f_attach f_ref f_destroy f_ud_set f_ud_get f_ud_detach f_alloc f_drain get live
   pl_init pl_at pl_items pl_clone pl_push pl_pop pl_unshift pl_shift pl_insert pl_set pl_remove pl_sort slot_bytes
   hcreate hlruinit hevmax iter_init iter_next iter_run hiter_steps it_bucket it_entry it_fault
